@@ -1,11 +1,23 @@
 //! Counting wakers.
+//!
+//! A waker's identity is its data pointer *and* its vtable
+//! (`Waker::will_wake`). A handle can have a *sibling*: a second waker over
+//! the same block (same data pointer) with another vtable and its own
+//! counter, which is what combinators that keep one state block and encode
+//! the branch in the vtable, or data-less wakers, look like to the code under
+//! test. Code that compares only the data pointers takes the two for the same
+//! waker.
 
 use std::sync::Arc;
-use std::sync::atomic::{AtomicU64, Ordering};
-use std::task::{Wake, Waker};
+use std::sync::atomic::{AtomicU64, AtomicUsize, Ordering};
+use std::task::{RawWaker, RawWakerVTable, Wake, Waker};
 
 pub struct CountWaker {
     pub wakes: AtomicU64,
+    /// Wakes through the sibling vtable.
+    pub wakes_b: AtomicU64,
+    /// Live `WakerHandle`s over this block (each holds two references).
+    handles: AtomicUsize,
 }
 
 impl Wake for CountWaker {
@@ -20,28 +32,80 @@ impl Wake for CountWaker {
     }
 }
 
-#[derive(Clone)]
+unsafe fn b_clone(data: *const ()) -> RawWaker {
+    unsafe { Arc::increment_strong_count(data.cast::<CountWaker>()) };
+    RawWaker::new(data, &VTABLE_B)
+}
+
+unsafe fn b_wake(data: *const ()) {
+    let cell = unsafe { Arc::from_raw(data.cast::<CountWaker>()) };
+    cell.wakes_b.fetch_add(1, Ordering::SeqCst);
+    crate::sched::notify(crate::sched::Reason::Token(Arc::as_ptr(&cell) as u64));
+}
+
+unsafe fn b_wake_by_ref(data: *const ()) {
+    let cell = unsafe { &*data.cast::<CountWaker>() };
+    cell.wakes_b.fetch_add(1, Ordering::SeqCst);
+    crate::sched::notify(crate::sched::Reason::Token(data as u64));
+}
+
+unsafe fn b_drop(data: *const ()) {
+    drop(unsafe { Arc::from_raw(data.cast::<CountWaker>()) });
+}
+
+static VTABLE_B: RawWakerVTable = RawWakerVTable::new(b_clone, b_wake, b_wake_by_ref, b_drop);
+
 pub struct WakerHandle {
     pub cell: Arc<CountWaker>,
     pub waker: Waker,
+    side_b: bool,
+}
+
+impl Clone for WakerHandle {
+    fn clone(&self) -> WakerHandle {
+        self.cell.handles.fetch_add(1, Ordering::SeqCst);
+        WakerHandle { cell: self.cell.clone(), waker: self.waker.clone(), side_b: self.side_b }
+    }
+}
+
+impl Drop for WakerHandle {
+    fn drop(&mut self) {
+        self.cell.handles.fetch_sub(1, Ordering::SeqCst);
+    }
 }
 
 impl WakerHandle {
     pub fn new() -> WakerHandle {
-        let cell = Arc::new(CountWaker { wakes: AtomicU64::new(0) });
+        let cell = Arc::new(CountWaker { wakes: AtomicU64::new(0), wakes_b: AtomicU64::new(0), handles: AtomicUsize::new(1) });
         let waker = Waker::from(cell.clone());
-        WakerHandle { cell, waker }
+        WakerHandle { cell, waker, side_b: false }
+    }
+    /// A different waker (`will_wake` is false both ways) with the same data
+    /// pointer as this one: same block, other vtable, own counter.
+    pub fn sibling(&self) -> WakerHandle {
+        self.cell.handles.fetch_add(1, Ordering::SeqCst);
+        let data = Arc::into_raw(self.cell.clone()).cast::<()>();
+        // SAFETY: the vtable functions treat `data` as the `Arc<CountWaker>`
+        // reference handed over here.
+        let waker = unsafe { Waker::from_raw(RawWaker::new(data, &VTABLE_B)) };
+        debug_assert!(!waker.will_wake(&self.waker) && waker.data() == self.waker.data());
+        WakerHandle { cell: self.cell.clone(), waker, side_b: true }
+    }
+    /// The waker a task presents when it "has a new waker": alternately a
+    /// sibling of the current one (same data pointer) and a brand new one.
+    pub fn replacement(&self) -> WakerHandle {
+        if self.side_b { WakerHandle::new() } else { self.sibling() }
     }
     /// Scheduler token notified by every wake of this waker.
     pub fn token(&self) -> u64 {
         Arc::as_ptr(&self.cell) as u64
     }
     pub fn wakes(&self) -> u64 {
-        self.cell.wakes.load(Ordering::SeqCst)
+        if self.side_b { self.cell.wakes_b.load(Ordering::SeqCst) } else { self.cell.wakes.load(Ordering::SeqCst) }
     }
     /// Number of clones of the waker held by others (the tested code).
     pub fn foreign_refs(&self) -> usize {
-        // One for `cell`, one for `waker`.
-        Arc::strong_count(&self.cell).saturating_sub(2)
+        // Two per handle: its `cell` and its `waker`.
+        Arc::strong_count(&self.cell).saturating_sub(2 * self.cell.handles.load(Ordering::SeqCst))
     }
 }
